@@ -193,7 +193,9 @@ def generate(seed: int, tier: str = "quick") -> dict:
         r = rp.random()
         if r < 0.3:
             t = rp.choice(toks)
-            program.append({"bar": b, "phase": PHASES[ph], "op": "aave.read", "m": "aave0", "a": {"view": rp.choice(["health_factor", "get_market_balance", "supplies"])}})
+            view = rp.choice(["health_factor", "get_market_balance", "supplies", "get_max_withdraw_amount", "get_max_borrow_amount", "max_ltv", "liquidation_threshold"])
+            # limit queries with no write after them in the bar: what they work on must not be the position itself
+            program.append({"bar": b, "phase": PHASES[ph], "op": "aave.read", "m": "aave0", "a": {"view": view, "token": {"supplied": rp.randint(0, 3)} if view == "get_max_withdraw_amount" else t}})
         elif r < 0.6:
             t = rp.choice(colls)
             amt = Decimal(A.dstr(float(unit[t]) * rp.uniform(0.01, 0.3), 6))
